@@ -8,6 +8,11 @@ from jaxtyping import Array
 
 def try_cast(x: Any) -> Array | None:
     try:
-        return jnp.asarray(x)
-    except TypeError:
+        x = jnp.asarray(x)
+    except (TypeError, ValueError):
         return None
+
+    if jnp.iscomplexobj(x):
+        return None
+
+    return x
